@@ -329,9 +329,21 @@ def _run_main(prog, tier):
     # stricter test that sends small samples to the full range
     if found:
         am = [n_ for n_ in ast.walk(fn) if isinstance(n_, ast.Call) and isinstance(n_.func, ast.Attribute) and n_.func.attr == "argmin"]
-        guards_ = [i_ for i_ in ast.walk(fn) if isinstance(i_, ast.If) and am and any(x is am[0] for b_ in i_.body for x in ast.walk(b_))]
-        for g_ in guards_:
+        guards_ = [(i_, False) for i_ in ast.walk(fn) if isinstance(i_, ast.If) and am and any(x is am[0] for b_ in i_.body for x in ast.walk(b_))]
+        # the same guard written as an early exit: `if <test>: return ..` in front of the windows (reached iff not <test>)
+        if am:
+            for i_ in fn.body:
+                if isinstance(i_, ast.If) and i_.lineno < am[0].lineno and not i_.orelse and i_.body and isinstance(i_.body[-1], ast.Return) \
+                        and not any(x is am[0] for x in ast.walk(i_)) and any(isinstance(x, ast.Name) and x.id not in (fn.args.args[0].arg,) for x in ast.walk(i_.test)):
+                    tt_ = rz.term(i_.test, i_)
+                    if any((isinstance(x, ast.Attribute) and x.attr in ("shape", "size")) or (isinstance(x, ast.Call) and U(x.func) == "len") for x in ast.walk(tt_)):
+                        guards_.append((i_, True))
+        for g_, negate_ in guards_:
             t_ = rz.term(g_.test, g_)
+            if negate_ and isinstance(t_, ast.Compare) and len(t_.ops) == 1:
+                inv_ = {ast.Lt: ast.GtE, ast.LtE: ast.Gt, ast.Gt: ast.LtE, ast.GtE: ast.Lt}.get(type(t_.ops[0]))
+                if inv_ is not None:
+                    t_ = ast.Compare(left=t_.left, ops=[inv_()], comparators=t_.comparators)
             okg, shown = False, U(t_)[:100]
             if isinstance(t_, ast.Compare) and len(t_.ops) == 1:
                 try:
@@ -413,6 +425,47 @@ def _run_main(prog, tier):
                          + ("; " + "; ".join(f"line {l}: `{t}` converts the sample to a type that does not hold its values exactly" for l, t in lossy[:2])
                             if lossy else ""), REL, lossy[0][0] if lossy else fn.lineno,
                          slots={"stores": [U(s) for s in stores]}))
+
+    # every draw takes part: each (re)definition of the working copy keeps all rows (conversions, copies, the sort, a column axis);
+    # and what is returned is what was stored: nothing rounds / rescales the end points on the way out
+    rc_all = _RowCount(fn, sname)
+    dropped, undecided = [], []
+    for st_ in ast.walk(fn):
+        if isinstance(st_, ast.Assign) and len(st_.targets) == 1 and isinstance(st_.targets[0], ast.Name) and st_.targets[0].id == sname:
+            v_ = st_.value
+            if rc_all.rows_of_sample(v_, (sname,)):
+                continue
+            if isinstance(v_, ast.Subscript) and isinstance(v_.value, ast.Name) and v_.value.id == sname:
+                dropped.append((st_.lineno, U(st_)[:80]))
+            elif isinstance(v_, ast.Call) and U(v_.func).split(".")[-1] in ("unique", "choice", "compress", "take", "delete", "resample", "percentile"):
+                dropped.append((st_.lineno, U(st_)[:80]))
+            else:
+                undecided.append((st_.lineno, U(st_)[:80]))
+    obs.append(struct_ob("endpoints-are-samples", construct + "[every-draw-kept]", not dropped,
+                         "the working copy must keep every draw of the sample: " + "; ".join(f"line {l}: `{t}` selects rows" for l, t in dropped[:2])
+                         + " - the interval is then the shortest window of another sample", REL, dropped[0][0] if dropped else fn.lineno, tier="F"))
+    if undecided and not dropped:
+        raise AnalysisError(f"endpoints-are-samples: the re-definition `{undecided[0][1]}` (line {undecided[0][0]}) of the working copy is not a "
+                            f"recognised row-preserving form - not decided")
+    post = []
+    last_store = max([s_.lineno for s_ in stores] or [0])
+    for st_ in ast.walk(fn):
+        if isinstance(st_, (ast.Assign, ast.AugAssign)) and st_.lineno > last_store:
+            tg_ = st_.targets[0] if isinstance(st_, ast.Assign) else st_.target
+            b_ = tg_
+            while isinstance(b_, (ast.Subscript, ast.Attribute)):
+                b_ = b_.value
+            if isinstance(b_, ast.Name) and b_.id in out_names:
+                v_ = st_.value
+                keeps = isinstance(st_, ast.Assign) and isinstance(tg_, ast.Name) and (
+                    (isinstance(v_, ast.Call) and isinstance(v_.func, ast.Attribute) and v_.func.attr in ("squeeze", "copy", "reshape", "ravel", "flatten")
+                     and U(v_.func.value) == tg_.id) or (isinstance(v_, ast.Attribute) and v_.attr == "T" and U(v_.value) == tg_.id))
+                if not keeps:
+                    post.append((st_.lineno, U(st_)[:80]))
+    obs.append(struct_ob("endpoints-are-samples", construct + "[returned-as-stored]", not post,
+                         "after the end points are stored the result may only change shape: " + "; ".join(f"line {l}: `{t}`" for l, t in post[:2])
+                         + " changes the values (the end points are then no longer sample values, and any absolute rounding breaks the "
+                         "covariance under rescaling)", REL, post[0][0] if post else fn.lineno, tier="F"))
 
     obs.append(_input_layout(fn, construct))
     # rows are draws and columns are variables because the caller says so: the axes are never exchanged on the strength of the shape
